@@ -10,9 +10,9 @@ def jobs(prop, tier, only_fn=None):
         return out
     quick = tier == "quick"
     if not only_fn or only_fn == "qsort_s":
-        geo = [(n, 1, 2) for n in range(0, 8)] + [(3, 2, 4), (4, 3, 3), (2, 257, 2), (5, 2, 3)]
+        geo = [(n, 1, 2) for n in range(0, 8)] + [(3, 2, 4), (4, 3, 3), (5, 2, 3)]
         if not quick:
-            geo += [(n, 1, 2) for n in range(8, 12)] + [(n, 2, 3) for n in (6, 7)] + [(3, 13, 3), (3, 300, 2), (4, 8, 4), (6, 1, 4), (7, 1, 3)]
+            geo += [(n, 1, 2) for n in range(8, 12)] + [(n, 2, 3) for n in (6, 7)] + [(3, 13, 3), (2, 257, 2), (4, 8, 4), (6, 1, 4), (7, 1, 3)]
         for (n, sz, keys) in geo:
             out.append(Job("qsort_s.C16.n%d.s%d.k%d" % (n, sz, keys), "C16", "h_sort.c", ["src/misc/qsort_s.c"] + SUPPORT,
                            defines=["-DNMEMB=%d" % n, "-DESIZE=%d" % sz, "-DKEYS=%d" % keys],
